@@ -8,7 +8,7 @@
 (* Every law is a predicate over `inp` and `r`; Radix is an independent    *)
 (* model of integer formatting (long division on limbs).                   *)
 (***************************************************************************)
-EXTENDS Ops, Json, IOUtils
+EXTENDS Codecs, Json, IOUtils
 
 Rec == ndJsonDeserialize(IOEnv.TRACE)
 VARIABLES l, viols, cnt
@@ -61,6 +61,55 @@ FormatRadix(w, base) == IF w = Zero THEN <<48>>
                         ELSE IF NegativeW(w) THEN <<45>> \o DigitsOf(BigEndianBytes(NegW(w)), base)
                         ELSE DigitsOf(BigEndianBytes(w), base)
 
+
+(* ---------- C22 / C23: codecs and ciphers ---------- *)
+\*  i.x the input bytes, r.enc the encoder's result, r.dec the decoder applied to it.
+\*  i.total: the encoder accepts every byte string; i.model names the independent model of the encoded text, if any
+BytesR(x) == Ok(x) /\ x.v.t = "bytes"
+EncText(r) == BytesOf(V(r.enc))
+CodecLaw(r, i) ==
+  /\ (i.total => BytesR(r.enc))
+  /\ (Ok(r.enc) => (BytesR(r.enc) /\ BytesR(r.dec) /\ BytesOf(V(r.dec)) = BytesOf(i.x)))
+  /\ (Ok(r.enc) =>
+        CASE i.model = "base16" -> EncText(r) = Base16(BytesOf(i.x))
+          [] i.model = "base64" -> EncText(r) = Base64(BytesOf(i.x), i.urlsafe, i.pad)
+          [] i.model = "percent_nonalnum" -> EncText(r) = PercentNonAlnum(BytesOf(i.x))
+          [] i.model = "percent" -> PercentShape(EncText(r), BytesOf(i.x))
+          [] OTHER -> TRUE)
+CipherLaw(r, i) ==
+  /\ (i.documented => BytesR(r.enc))
+  /\ (Ok(r.enc) => (BytesR(r.dec) /\ BytesOf(V(r.dec)) = BytesOf(i.x)))
+\* encrypt_ip / decrypt_ip: compared through the 4 / 16 address bytes (ip_pton), so textual forms do not matter
+IpCipherLaw(r, i) ==
+  /\ BytesR(r.orig)
+  /\ (i.documented => BytesR(r.enc))
+  /\ (Ok(r.enc) => (BytesR(r.back) /\ BytesOf(V(r.back)) = BytesOf(V(r.orig))))
+
+(* ---------- C21: JSON ---------- *)
+RECURSIVE JsonEq(_, _)
+JsonEq(a, b) ==
+  /\ a.t = b.t
+  /\ CASE a.t = "bytes" -> BytesOf(a) = BytesOf(b)
+        [] a.t = "int" -> a.w = b.w
+        [] a.t = "float" -> WithinOneUlp(a.b, b.b)
+        [] a.t = "bool" -> a.v = b.v
+        [] a.t = "null" -> TRUE
+        [] a.t = "arr" -> Len(a.e) = Len(b.e) /\ \A j \in 1..Len(a.e) : JsonEq(a.e[j], b.e[j])
+        [] a.t = "obj" -> DOMAIN a.m = DOMAIN b.m /\ \A f \in DOMAIN a.m : JsonEq(a.m[f], b.m[f])
+        [] OTHER -> FALSE
+RECURSIVE JsonSame(_, _)
+JsonSame(a, b) ==      \* as JsonEq but floats bit-identical (up to the sign of zero)
+  /\ a.t = b.t
+  /\ CASE a.t = "float" -> (a.b = b.b \/ (FIsZero(a.b) /\ FIsZero(b.b)))
+        [] a.t = "arr" -> Len(a.e) = Len(b.e) /\ \A j \in 1..Len(a.e) : JsonSame(a.e[j], b.e[j])
+        [] a.t = "obj" -> DOMAIN a.m = DOMAIN b.m /\ \A f \in DOMAIN a.m : JsonSame(a.m[f], b.m[f])
+        [] OTHER -> JsonEq(a, b)
+JsonLaw(r, i) ==
+  /\ Ok(r.compact) /\ JsonEq(V(r.compact), i.x)
+  /\ Ok(r.pretty) /\ JsonEq(V(r.pretty), i.x)
+  /\ Ok(r.serde) /\ JsonEq(V(r.serde), i.x)
+  /\ JsonSame(V(r.compact), V(r.pretty)) /\ JsonSame(V(r.compact), V(r.serde))     \* "behaves the same way"
+
 (* ---------- the laws ---------- *)
 Same(a, b) == (Ok(a) /\ Ok(b) /\ V(a) = V(b))
 Law(r, i, name) ==
@@ -87,6 +136,11 @@ Law(r, i, name) ==
                                       /\ \A j \in 1..Len(i.o.ks) : Plain(V(r.vals).e[j]) = Plain(i.o.m[i.o.ks[j].s])
     [] name = "merge" -> Ok(r.out) /\ DOMAIN V(r.out).m = (DOMAIN i.o.m) \cup (DOMAIN i.o2.m)
                          /\ \A f \in DOMAIN V(r.out).m : Plain(V(r.out).m[f]) = Plain(IF f \in DOMAIN i.o2.m THEN i.o2.m[f] ELSE i.o.m[f])
+    \* C22 C23 C21
+    [] name = "codec" -> CodecLaw(r, i)
+    [] name = "cipher" -> CipherLaw(r, i)
+    [] name = "ip_cipher" -> IpCipherLaw(r, i)
+    [] name = "json_roundtrip" -> JsonLaw(r, i)
     \* C24
     [] name = "kv_roundtrip" -> Ok(r.enc) => (Ok(r.dec) /\ DOMAIN V(r.dec).m = DOMAIN i.o.m
                                               /\ \A f \in DOMAIN i.o.m : V(r.dec).m[f].t = "bytes" /\ V(r.dec).m[f].s = i.o.m[f].s)
@@ -96,6 +150,29 @@ Law(r, i, name) ==
     [] name = "inverse_obj" -> Ok(r.fwd) => (Ok(r.back) /\ V(r.back).m = i.x.m)
     [] name = "format_int" -> /\ IsStr(r.fwd) /\ U(r.fwd) = FormatRadix(i.x.w, i.base)       \* Radix model
                               /\ Ok(r.back) /\ V(r.back).t = "int" /\ V(r.back).w = i.x.w      \* parse_int(format_int(x)) = x
+
+
+(* ---------- C31: reference semantics of the leaves of a Datadog search query on attributes and tags ---------- *)
+\* Numbers are carried in tenths (n10, b10) so that fractional bounds are exact integers here; strings as code points.
+\* ev: [has_n, n10, has_a, a, tags] - the abstract event; leaf: [k, ...] - the abstract leaf (the driver renders both).
+CmpOp(op, a, b) == CASE op = "lt" -> a < b [] op = "le" -> a <= b [] op = "gt" -> a > b [] op = "ge" -> a >= b
+SeqLt(a, b) == BytesLt(Utf8Seq(a), Utf8Seq(b))          \* strings order by their UTF-8 bytes
+StrCmp(op, a, b) == CASE op = "lt" -> SeqLt(a, b) [] op = "le" -> (SeqLt(a, b) \/ a = b) [] op = "gt" -> SeqLt(b, a) [] op = "ge" -> (SeqLt(b, a) \/ a = b)
+RECURSIVE Glob(_, _)
+Glob(p, str) == IF p = <<>> THEN str = <<>>
+                ELSE IF Head(p) = 42 THEN \E k \in 0..Len(str) : Glob(Tail(p), SubSeq(str, k + 1, Len(str)))
+                ELSE str # <<>> /\ Head(str) = Head(p) /\ Glob(Tail(p), Tail(str))
+DdLeaf(leaf, ev) ==
+  CASE leaf.k = "num_cmp" -> ev.has_n /\ CmpOp(leaf.op, ev.n10, leaf.b10)
+    [] leaf.k = "num_range" -> ev.has_n /\ CmpOp(IF leaf.incl THEN "ge" ELSE "gt", ev.n10, leaf.lo10) /\ CmpOp(IF leaf.incl THEN "le" ELSE "lt", ev.n10, leaf.hi10)
+    [] leaf.k = "str_cmp" -> ev.has_a /\ StrCmp(leaf.op, ev.a, leaf.s)
+    [] leaf.k = "str_range" -> ev.has_a /\ StrCmp(IF leaf.incl THEN "ge" ELSE "gt", ev.a, leaf.lo) /\ StrCmp(IF leaf.incl THEN "le" ELSE "lt", ev.a, leaf.hi)
+    [] leaf.k = "attr_term" -> ev.has_a /\ ev.a = leaf.s
+    [] leaf.k = "attr_glob" -> ev.has_a /\ Glob(leaf.s, ev.a)           \* prefix `x*`, suffix `*x`, infix `x*y`
+    [] leaf.k = "exists" -> ev.has_a
+    [] leaf.k = "missing" -> ~ev.has_a
+    [] leaf.k = "tag_term" -> \E j \in 1..Len(ev.tags) : ev.tags[j] = leaf.key \o <<58>> \o leaf.s
+    [] leaf.k = "tag_glob" -> \E j \in 1..Len(ev.tags) : Glob(leaf.key \o <<58>> \o leaf.s, ev.tags[j])
 
 \* C30 / C31: Datadog search
 BoolR(x) == Ok(x) /\ x.v.t = "bool"
@@ -113,6 +190,7 @@ DdLaw(r, i, name) ==
             /\ BoolR(r.nested) /\ B(r.nested) = (~(B(r.A) /\ B(r.B)) \/ B(r.B))
     [] name = "dd_range" ->
          (BoolR(r.lo) /\ BoolR(r.hi)) => (BoolR(r.range) /\ B(r.range) = (B(r.lo) /\ B(r.hi)))
+    [] name = "dd_leaf" -> BoolR(r.m) /\ B(r.m) = DdLeaf(i.leaf, i.ev)
 
 \* C32: grok
 \*  cyc   : rule with alias definitions: compilation must be rejected iff a cycle is reachable (i.cyclic computed by the generator's graph search)
@@ -128,8 +206,9 @@ GrokLaw(r, i) ==
                                                    \/ (f \notin DOMAIN r.out.v.m /\ i.caps[f].t = "bytes" /\ i.caps[f].u = <<>>)
                          ELSE r.out.k = "err"
 
-Prop(name) == IF name = "dd_roundtrip" THEN "C30" ELSE IF name \in {"dd_compose", "dd_range"} THEN "C31"
+Prop(name) == IF name = "dd_roundtrip" THEN "C30" ELSE IF name \in {"dd_compose", "dd_range", "dd_leaf"} THEN "C31"
               ELSE IF name = "grok" THEN "C32"
+              ELSE IF name = "codec" THEN "C22" ELSE IF name \in {"cipher", "ip_cipher"} THEN "C23" ELSE IF name = "json_roundtrip" THEN "C21"
               ELSE IF name \in {"kv_roundtrip", "csv_roundtrip"} THEN "C24"
               ELSE IF name \in {"inverse", "inverse_obj", "format_int"} THEN "C25" ELSE "C28"
 
@@ -143,14 +222,15 @@ Where(name, fn, i) ==
     [] name = "kv_roundtrip" /\ ObjHasChar(i.o, {92, 10}) -> fn \o ":backslash-or-newline"
     [] name = "kv_roundtrip" /\ ObjHasChar(i.o, {34, 61, 58, 44, 9, 32}) -> fn \o ":quote-delimiter-or-whitespace"
     [] name = "csv_roundtrip" /\ ArrHasChar(i.a, {92, 10, 34}) -> fn \o ":backslash-newline-or-quote"
-    [] name \in {"dd_roundtrip", "dd_range", "grok"} -> i.shape
+    [] name \in {"dd_roundtrip", "dd_range", "dd_leaf", "grok"} -> i.shape
+    [] name \in {"codec", "cipher", "ip_cipher", "json_roundtrip"} -> fn \o ":" \o i.shape
     [] OTHER -> fn
 
 Panics(r) == \E n \in DOMAIN r : r[n].k = "panic"
 
 T_Law ==
   /\ l <= Len(Rec) /\ Ev.e = "law"
-  /\ LET ok == IF Ev.law.name \in {"dd_roundtrip", "dd_compose", "dd_range"} THEN DdLaw(Ev.r, Ev.inp, Ev.law.name)
+  /\ LET ok == IF Ev.law.name \in {"dd_roundtrip", "dd_compose", "dd_range", "dd_leaf"} THEN DdLaw(Ev.r, Ev.inp, Ev.law.name)
                ELSE IF Ev.law.name = "grok" THEN GrokLaw(Ev.r, Ev.inp)
                ELSE Law(Ev.r, Ev.inp, Ev.law.name) IN
      /\ viols' = (IF ok THEN viols
@@ -166,7 +246,7 @@ T_Lost ==
   /\ cnt' = Bump(cnt, "laws")
   /\ l' = l + 1
 
-Init == l = 1 /\ viols = <<>> /\ cnt = [c \in {"laws", "C24", "C25", "C28", "C30", "C31", "C32"} |-> 0]
+Init == l = 1 /\ viols = <<>> /\ cnt = [c \in {"laws", "C21", "C22", "C23", "C24", "C25", "C28", "C29", "C30", "C31", "C32", "C35"} |-> 0]
 Next == T_Law \/ T_Lost
 TraceSpec == Init /\ [][Next]_lvars
 Report == (l = Len(Rec) + 1) =>
